@@ -13,6 +13,7 @@ from sa import AnalysisError
 from sa.astutil import method_name, dotted, src, stmt_text, params, target_names, walk_no_nested, find_stmts, calls_in
 from sa.facts import abs_eval
 from sa.paths import PathEnumerator, Event
+from sa.guards import decompose
 
 TOL_NAMES = {'tol', 'atol'}
 
@@ -532,6 +533,89 @@ def thorough_discovery(model, rep):
         rep.unit('proposers', 1)
 
 
+def check_prescribed_values(model, rep):
+    """R14.10: System.deconstruct splits every trial argument into the entries that are solved for (x) and the stored argument `a`
+    whose non-NaN entries are held fixed.  For a constraint given as a FLOAT array the fixed entries are the non-NaN VALUES of that
+    array: on every path on which the constraint is present and not known to be boolean, the array stored back into `arguments` must
+    have been computed from the values of the constraint - not merely from its NaN/boolean pattern (which would keep the initial guess
+    where the caller prescribed a value: the solve converges and returns another solution)."""
+    from sa.paths import PathEnumerator, Event
+    f = model.func('solver:System.deconstruct')
+    loops = [l for l in f.body if isinstance(l, ast.For)]
+    if len(loops) != 1:
+        raise AnalysisError('System.deconstruct: the loop over the trials was not found')
+    lp = loops[0]
+    gets = {}
+    for s_ in lp.body:
+        if isinstance(s_, ast.Assign) and isinstance(s_.targets[0], ast.Name) and isinstance(s_.value, ast.Call) and isinstance(s_.value.func, ast.Attribute) and s_.value.func.attr == 'get':
+            gets[src(s_.value.func.value)] = s_.targets[0].id
+    cn, an = gets.get('constrain'), gets.get('arguments')
+    stores = [s_ for s_ in lp.body if isinstance(s_, ast.Assign) and isinstance(s_.targets[0], ast.Subscript) and src(s_.targets[0].value) == 'arguments']
+    if cn is None or an is None or len(stores) != 1 or not isinstance(stores[0].value, ast.Name):
+        raise AnalysisError('System.deconstruct: constrain.get / arguments.get / arguments[t] = a were not found')
+    stored = stores[0].value.id
+
+    def value_read(e):
+        par = {}
+        for n_ in ast.walk(e):
+            for ch in ast.iter_child_nodes(n_):
+                par[id(ch)] = n_
+        for n_ in ast.walk(e):
+            if isinstance(n_, ast.Name) and n_.id == cn and isinstance(n_.ctx, ast.Load):
+                p_ = par.get(id(n_))
+                if isinstance(p_, ast.Call) and src(p_.func) in ('numpy.isnan', 'numpy.isfinite', 'len') and n_ in p_.args:
+                    continue
+                if isinstance(p_, ast.UnaryOp) and isinstance(p_.op, (ast.Invert, ast.Not)):
+                    continue
+                if isinstance(p_, ast.Attribute) and p_.attr in ('dtype', 'shape', 'ndim', 'size'):
+                    continue
+                if isinstance(p_, ast.Compare):
+                    continue
+                return True
+        return False
+
+    def on_stmt(s_, st):
+        evs = []
+        if isinstance(s_, ast.Assign) and len(s_.targets) == 1:
+            t = s_.targets[0]
+            if isinstance(t, ast.Name) and t.id == stored:
+                evs.append(Event('BIND', s_, value_read(s_.value) or (src(s_.value) == cn)))
+            elif isinstance(t, ast.Subscript) and src(t.value) == stored and value_read(s_.value):
+                evs.append(Event('FILL', s_))
+            elif s_ is stores[0]:
+                evs.append(Event('STORE', s_))
+        return evs
+    fn = ast.FunctionDef(name='body', args=f.node.args, body=lp.body, decorator_list=[], lineno=lp.lineno, col_offset=0)
+    paths = PathEnumerator(fn, on_stmt=on_stmt).paths()
+    n = 0
+    bad = None
+    for p_ in paths:
+        i = p_.index(lambda e: e.kind == 'STORE')
+        if i < 0:
+            continue
+        facts = {}
+        for e in p_.events[:i]:
+            if e.kind == 'cond':
+                for node_, val in decompose(e.node, e.data[0]):
+                    facts[src(node_)] = val
+        if facts.get(f'{cn} is None') is not False or facts.get(f'{cn}.dtype == bool') is True:
+            continue    # no constraint, or a boolean one (holds entries at the initial guess)
+        n += 1
+        carried = False
+        for e in p_.events[:i]:
+            if e.kind == 'BIND':
+                carried = bool(e.data)
+            elif e.kind == 'FILL':
+                carried = True
+        if not carried and bad is None:
+            bad = facts
+    if n < 2:
+        raise AnalysisError(f'System.deconstruct: only {n} paths with a float constraint found')
+    rep.ob('R14.10', f.key, f.where(stores[0]), bad is None, f'on all {n} paths with a float constraint the stored argument carries the prescribed values' if bad is None else
+           f'on a path with a non-boolean constraint ({sorted(k for k in bad)[:4]}) the array stored into `arguments` was computed from the NaN pattern of `{cn}` only: the prescribed values are replaced by '
+           'the initial guess, the solve converges and returns a solution of another problem', statement='prescribed-values-stored')
+
+
 def run(model, rep, tier):
     rep.explanation = (
         'Static path analysis of the solver gates. R14.1: the functions System.solve, _with_solve.solve_withinfo and Matrix._solver '
@@ -562,6 +646,11 @@ def run(model, rep, tier):
     check_who_may_call(model, rep)
     check_project_constraints(model, rep)
     check_residual_provenance(model, rep)
+    rep.rule('R14.10', 'System.deconstruct stores the VALUES of a float constraint into the argument (not only its NaN pattern)')
+    check_prescribed_values(model, rep)
+    rep.rule('R14.9', 'the solver front ends never write into an array the caller passed (incl. what deconstruct hands back) (= R03.7)')
+    from rules.c03 import check_solver_ownership, _Rename
+    check_solver_ownership(model, _Rename(rep, {'R03.7': 'R14.9'}))
     from rules.c15 import check_base_operators
     check_base_operators(model, _Only(rep, {'R15.6': 'R14.6'}, keep=('submatrix-cache', 'precon-cache')))
     rep.require('R14.1', 8)
